@@ -142,6 +142,12 @@ func (w *CliWorld) execRelay(op *Op, cli *turn.Client) bool {
 		w.srvSend(w.SrvAddr, w.cliAddr, m.Raw)
 	case "srv_chandata":
 		payload := MakePayload(w.P.Seed, "srv", op)
+		if hasFlag(op, "stranger") && !w.stream {
+			// the same message from a third address: the server relayed nothing
+			w.K.Stats.Probe("stranger_chandata")
+			w.Net.SendUDP(mustUDPAddr("10.0.3.9:7777"), w.cliAddr, buildChannelData(uint16(op.A.Chan), payload, true))
+			return true
+		}
 		w.mu.Lock()
 		peer, known := w.chanSeen[uint16(op.A.Chan)]
 		if !known {
